@@ -20,3 +20,13 @@ def run(rep, tier, seed, scratch):
     camp_props.run_single(rep, 'C06', tier, seed + 3, 24, 120, allow={'precision': 'Single', 'iteration_limit': 40, 'validate_input': [True, False]}, name='single_precision')
     # grad f orthogonal to J^T c (ParetoDecrease divides by their inner product only when it is not ~0)
     camp_props.run_single(rep, 'C06', tier, seed + 5, 6, 24, allow={'penalty_update': 'ParetoDecrease', 'iteration_limit': 40}, families=['separable'], name='separable_pareto', scaling=False)
+    # every variable active at the solution (empty reduced systems, all-False row filters): every step solver in both precisions
+    from ..gen import Gen as _Gen
+    from .. import campaign as _C
+    gg = _Gen(seed + 6)
+    extra = []
+    for ss in ('Standard', 'Extended', 'Symmetric', 'Asymmetric'):
+        for prec in ('Single', 'Double'):
+            extra.append(_C.gen_case(gg, 'vertex', {'precision': prec, 'step_solver_type': ss, 'linear_solver_type': 'LU',
+                                                  'iteration_limit': 40, 'penalty_update': 'Constant'}, scaling=False))
+    camp_props.run_single(rep, 'C06', tier, seed + 6, 0, 16, families=['vertex'], name='all_active', scaling=False, extra_cases=extra)
